@@ -64,6 +64,22 @@ def read_log(path):
     return out
 
 
+def read_cmds(path):
+    """Kinds of the commands the remote doer (its main thread) started to execute; a last line cut short by the
+    process dying is ignored."""
+    try:
+        text = open(path).read()
+    except OSError:
+        return []
+    lines = text.split('\n')[:-1]          # complete lines only
+    out = []
+    for l in lines:
+        t = l.split()
+        if len(t) >= 2 and t[0] == '"main"':
+            out.append(t[1])
+    return out
+
+
 def run_sync(binary, base, name, placement, plan):
     """One sync in a fresh sandbox. Returns dict(result, log, cmds (remote doer's command kinds), src, dest_before, dest_after)."""
     d = os.path.join(base, name)
@@ -74,16 +90,15 @@ def run_sync(binary, base, name, placement, plan):
     before = e2e.snapshot(dest)
     logf, cmdlog = os.path.join(d, 'mitm.jsonl'), os.path.join(d, 'cmds.log')
     env = {'MITM_PLAN': json.dumps(plan), 'MITM_LOG': logf, 'MITM_DOER_CMD_LOG': cmdlog, 'MITM_GRACE': '2'}
-    a = ('localhost:' if placement in ('src_remote',) else '') + src + '/'
-    b = ('localhost:' if placement in ('dest_remote',) else '') + dest + '/'
+    if placement == 'both_remote':
+        sd = os.path.join(d, 'sessions'); os.makedirs(sd)
+        env['MITM_SESSION_DIR'] = sd
+        k = plan.get('session', 0)
+        logf, cmdlog = logf + '.%d' % k, cmdlog + '.%d' % k
+    a = ('localhost:' if placement in ('src_remote', 'both_remote') else '') + src + '/'
+    b = ('localhost:' if placement in ('dest_remote', 'both_remote') else '') + dest + '/'
     r = e2e.run_cli(binary, [a, b], env=env, timeout=40, fake_ssh=fake_ssh_dir(d))
-    cmds = []
-    try:
-        for l in open(cmdlog).read().splitlines():
-            if l.startswith('"main" '):
-                cmds.append(l.split()[1])
-    except OSError:
-        pass
+    cmds = read_cmds(cmdlog)
     return {'result': r, 'log': read_log(logf), 'cmds': cmds, 'src': e2e.snapshot(src), 'before': before, 'after': e2e.snapshot(dest),
             'src_path': src, 'dest_path': dest}
 
@@ -139,8 +154,8 @@ def nonce_oracle(run, binary, log, what):
     return None
 
 
-def plan_for(rng, op, d, i, forged_hex):
-    p = {'dir': d, 'index': i, 'op': op}
+def plan_for(rng, op, d, i, forged_hex, sess=0):
+    p = {'dir': d, 'index': i, 'op': op, 'session': sess}
     if op == 'flip':
         p['bit'] = rng.randrange(0, 1 << 16)
     if op == 'replay_later':
@@ -165,6 +180,8 @@ def judge_run(run, binary, placement, plan, base_kinds, n_frames, out, label):
     run.count('e2e-exit:%s:dir%d:%s' % (label, plan['dir'], 'timeout' if r['timed_out'] else r['exit']))
     d, i = plan['dir'], plan['index']
     applied = log['applied']
+    # number of frames of the manipulated direction that reach the receiver unchanged and in place
+    pos = {'dup': i + 1, 'replay_later': i + 2 + plan.get('gap', 0)}.get(plan['op'], i)
     run.case(('e2e', placement, json.dumps(plan, sort_keys=True)), applied,
              sample={'case': {'leg': 'e2e', 'placement': placement, 'plan': {k: (v if k != 'hex' else v[:32] + '..') for k, v in plan.items()}},
                      'impl': 'exit=%s doer_exit=%s cmds=%d frames=%d/%d' % (r['exit'], log['doer_exit'], len(out['cmds']), len(log['frames'][0]), len(log['frames'][1]))})
@@ -173,7 +190,7 @@ def judge_run(run, binary, placement, plan, base_kinds, n_frames, out, label):
     bad = tree_oracle(out)
     if bad:
         run.fail('C10 e2e: ' + bad, replay); return
-    if placement == 'dest_remote' and log['key']:
+    if log['key']:
         # what the boss really sent (decrypted with the session key the fake ssh saw), in order
         sent = kinds_of(binary, log['key'], log['frames'][0], 0)
         replay['boss_sent'] = sent[:60]
@@ -181,16 +198,12 @@ def judge_run(run, binary, placement, plan, base_kinds, n_frames, out, label):
         if cmds != sent[:len(cmds)]:
             run.fail('C10 e2e: the doer executed %r..., which is not a prefix of the commands the boss sent %r... '
                      '(a manipulated frame was acted upon)' % (cmds[max(0, i - 2):i + 3], sent[max(0, i - 2):i + 3]), replay); return
-        if applied and d == 0 and len(cmds) > i and plan['op'] != 'none':
-            # frame i of the stream the doer saw is not the boss's frame i (for dup / replay the copy comes later)
-            lim = {'dup': i + 1, 'replay_later': i + 1 + plan.get('gap', 0) + 1, 'swap': i}.get(plan['op'], i)
-            if plan['op'] == 'reflect' or plan['op'] == 'inject':
-                lim = i
-            if len(cmds) > lim:
-                run.fail('C10 e2e: the doer executed %d commands although the stream deviates after %d frames' % (len(cmds), lim), replay); return
-    if applied and i < n_frames[d] - 1 and not r['timed_out'] and r['exit'] == 0 and 'ERROR' not in r['stderr']:
-        # the receiver has to give the connection up, so the frames after the manipulated one cannot have arrived
-        run.fail('C10 e2e: a frame was manipulated (%s at frame %d of direction %d) and the sync completed without any error' % (plan['op'], i, d), replay); return
+        if applied and d == 0 and len(cmds) > pos:
+            run.fail('C10 e2e: the doer executed %d commands although the stream deviates after %d frames' % (len(cmds), pos), replay); return
+    if applied and pos <= n_frames[d] - 1 and not r['timed_out'] and r['exit'] == 0 and 'ERROR' not in r['stderr']:
+        # the receiver has to give the connection up, so the frames from the deviation on (at least the final
+        # message of the direction) cannot have arrived
+        run.fail('C10 e2e: the stream of direction %d was manipulated (%s at frame %d) and the sync completed without any error' % (d, plan['op'], i), replay); return
     run.traces_validated += 1
 
 
@@ -237,10 +250,7 @@ def wrong_key_leg(run, binary, base):
         finally:
             if p.poll() is None:
                 p.kill(); p.wait()
-        try:
-            cmds = [l.split()[1] for l in open(cmdlog).read().splitlines() if l.startswith('"main" ')]
-        except OSError:
-            cmds = []
+        cmds = read_cmds(cmdlog)
         made = os.path.isdir(os.path.join(d, 'a'))
         run.count('doer-direct:' + v)
         run.case(('doer-direct', v), v != 'right-key', sample={'case': {'leg': 'doer-direct', 'variant': v}, 'impl': 'exit=%s cmds=%r created=%s' % (rc, cmds, made)})
@@ -265,13 +275,13 @@ def run_e2e(run, binary, tier):
     try:
         wrong_key_leg(run, binary, base)
         forged = fl.unhx(fl.kv(vlib.harness(binary, 'frames', ['S %s 0 0 1 z:5:40:9' % ('5a' * 16)])[0])['wire']).hex()
-        placements = ['dest_remote', 'src_remote']
-        for pl in placements:
-            b = run_sync(binary, base, 'base_' + pl, pl, {'op': 'none'})
+        placements = [('dest_remote', 0), ('src_remote', 0)] + ([('both_remote', 0), ('both_remote', 1)] if tier == 'thorough' else [])
+        for pl, sess in placements:
+            b = run_sync(binary, base, 'base_%s%d' % (pl, sess), pl, {'op': 'none', 'session': sess})
             r, log = b['result'], b['log']
             ok = r['exit'] == 0 and not r['timed_out'] and {k: v[:3] for k, v in b['after'].items()} == {k: v[:3] for k, v in b['src'].items()} and log['key']
-            run.count('e2e-baseline:' + pl)
-            run.case(('e2e-baseline', pl), True, sample={'case': {'leg': 'e2e', 'placement': pl, 'plan': 'none'},
+            run.count('e2e-baseline:%s/%d' % (pl, sess))
+            run.case(('e2e-baseline', pl, sess), True, sample={'case': {'leg': 'e2e', 'placement': pl, 'plan': 'none'},
                                                          'impl': 'exit=%s frames=%d/%d' % (r['exit'], len(log['frames'][0]), len(log['frames'][1]))})
             if not ok:
                 run.broke('correspondence', 'e2e-baseline', json.dumps({'placement': pl, 'exit': r['exit'], 'timed_out': r['timed_out'], 'stderr': r['stderr'][-1500:], 'key': log['key']}))
@@ -282,21 +292,21 @@ def run_e2e(run, binary, tier):
                 run.fail('C10 nonce reuse: ' + bad, {'leg': 'e2e-nonce', 'placement': pl})
                 continue
             n = {0: len(log['frames'][0]), 1: len(log['frames'][1])}
-            run.extra.setdefault('e2e_frames_per_direction', {})[pl] = n
+            run.extra.setdefault('e2e_frames_per_direction', {})['%s/session%d' % (pl, sess)] = n
             idxs = list(range(0, 13)) if tier == 'thorough' else [0, 1, 2, 3, 5, 8, 12]
             jobs = []
             for op in OPS:
                 for d in (0, 1):
                     for i in idxs:
                         if i < n[d] - 1:
-                            jobs.append((op, d, i, plan_for(rng, op, d, i, forged)))
+                            jobs.append((op, d, i, plan_for(rng, op, d, i, forged, sess)))
             if tier == 'quick':
                 # one index per (op, direction) is rotated in by the seed, the low indices always run
                 jobs = [j for j in jobs if j[2] in (0, 1, 2) or (j[2] + run.seed) % 2 == 0]
 
             def one(job):
                 op, d, i, plan = job
-                return job, run_sync(binary, base, '%s_%s_%d_%d' % (pl, op, d, i), pl, plan)
+                return job, run_sync(binary, base, '%s%d_%s_%d_%d' % (pl, sess, op, d, i), pl, plan)
             with ThreadPoolExecutor(max_workers=min(12, vlib.NPROC)) as ex:
                 results = list(ex.map(one, jobs))
             for (op, d, i, plan), out in results:
